@@ -12,25 +12,28 @@ import (
 	parsec "github.com/prataprc/goparsec"
 )
 
+// basicType parses the keywords of the basic types. A keyword ends at
+// a word boundary: "anything" is an identifier, not "any" followed
+// by "thing".
 func basicType() parsec.Parser {
 	return parsec.OrdChoice(nodifyBasicType,
-		parsec.Atom("int8", ""),
-		parsec.Atom("uint8", ""),
-		parsec.Atom("int16", ""),
-		parsec.Atom("uint16", ""),
-		parsec.Atom("int32", ""),
-		parsec.Atom("uint32", ""),
-		parsec.Atom("int64", ""),
-		parsec.Atom("uint64", ""),
-		parsec.Atom("float32", ""),
-		parsec.Atom("float64", ""),
-		parsec.Atom("int64", ""),
-		parsec.Atom("uint64", ""),
-		parsec.Atom("bool", ""),
-		parsec.Atom("str", ""),
-		parsec.Atom("obj", ""),
-		parsec.Atom("any", ""),
-		parsec.Atom("unknown", ""))
+		parsec.Token(`int8\b`, ""),
+		parsec.Token(`uint8\b`, ""),
+		parsec.Token(`int16\b`, ""),
+		parsec.Token(`uint16\b`, ""),
+		parsec.Token(`int32\b`, ""),
+		parsec.Token(`uint32\b`, ""),
+		parsec.Token(`int64\b`, ""),
+		parsec.Token(`uint64\b`, ""),
+		parsec.Token(`float32\b`, ""),
+		parsec.Token(`float64\b`, ""),
+		parsec.Token(`int64\b`, ""),
+		parsec.Token(`uint64\b`, ""),
+		parsec.Token(`bool\b`, ""),
+		parsec.Token(`str\b`, ""),
+		parsec.Token(`obj\b`, ""),
+		parsec.Token(`any\b`, ""),
+		parsec.Token(`unknown\b`, ""))
 }
 
 // Context catures the current state of the parser.
